@@ -20,12 +20,12 @@ namespace ss
         p.set("seed", (long long)seed);
         p.set("sseed", (long long)(r.next() >> 2));
         p.set("hseed", (long long)(r.next() >> 2));
-        if (profile == "C13")
+        if (profile == "C13" || profile == "C15T")
         {
             p.set("mode", "ts");
             int tasks = int(r.range(2, 4));
             p.set("tasks", tasks);
-            p.set("variant", (long long)r.below(8));
+            p.set("variant", profile == "C15T" ? 6ll : (long long)r.below(8)); // C15T: the process-wide counters only
             p.set("budget", 5000);
             auto ns = r.pick<long long>({8, 16, 32, 64});
             p.set("node_size", ns);
